@@ -23,7 +23,7 @@ pub struct Cfg {
     pub memory_limit: String,
 }
 
-pub const RULE: &str = "configuration product --runtime-type {current-thread, multi-thread} x --threads {1,2,8} x --eviction-policy {none, random with a --memory-limit that is never reached, spelled 1GiB / 16Mb / 4GiB / 6GiB / 512mib / 2000MB} (x --max-item-size {1 KiB.., default} x --connection-limit {1,3} in the thorough tier), each a real memcrsd child process on its own loopback port. Every configuration is driven with the same single-connection programs (4 scripted ones aimed at the eviction-policy layer, delayed flush, counters and CAS, then proptest-generated ones) (all implemented opcodes loud/quiet, unimplemented opcodes, TTL 0 only) in the same order; oracle: the response byte stream of every program is identical to that of the first configuration (CAS included). Per configuration: a set whose body equals the item limit is accepted and limit+1 is answered 0x03; of 12 simultaneous connections exactly `connection-limit` answer a noop (the others stay unanswered over a 300 ms grace); 8 connections x 400 pipelined increments of one counter return 3200 distinct values and leave the exact total; real-time probe: set ttl 2 hits immediately and misses after 3.5 s while a ttl-0 item and a ttl-7 item are still there. evaluations = configurations x programs. non-trivial = a program with at least 10 requests covering at least 6 opcodes";
+pub const RULE: &str = "configuration product --runtime-type {current-thread, multi-thread} x --threads {1,2,8} x --eviction-policy {none, random with a --memory-limit that is never reached, spelled 1GiB / 16Mb / 4GiB / 6GiB / 512mib / 2000MB} (x --max-item-size {1 KiB.., default} x --connection-limit {1,3} in the thorough tier), each a real memcrsd child process on its own loopback port. Every configuration is driven with the same single-connection programs (5 scripted ones aimed at the eviction-policy layer, delayed flush, counters and CAS, then proptest-generated ones) (all implemented opcodes loud/quiet, unimplemented opcodes, TTL 0 only) in the same order; oracle: the response byte stream of every program is identical to that of the first configuration (CAS included). Per configuration: a set whose body equals the item limit is accepted and limit+1 is answered 0x03; of 12 simultaneous connections exactly `connection-limit` answer a noop (the others stay unanswered over a 300 ms grace); 8 connections x 400 pipelined increments of one counter return 3200 distinct values and leave the exact total; real-time probe: set ttl 2 hits immediately and misses after 3.5 s while a ttl-0 item and a ttl-7 item are still there. evaluations = configurations x programs. non-trivial = a program with at least 10 requests covering at least 6 opcodes";
 pub const ASSUME: &[&str] = &[
     "memcrsd is built from /repo's working tree with cargo's dev profile (overflow checks on) into /verif/harness/target/memcrsd-build",
     "the configuration product is enumerated completely for the listed values only; --port varies per configuration by construction",
@@ -108,8 +108,10 @@ fn run_program(port: u16, stream: &[u8]) -> Result<Vec<u8>, String> {
     let mut all = stream.to_vec();
     all.extend_from_slice(&wire::simple(wire::NOOP, crate::netpipe::SENTINEL).bytes());
     let _ = c.sock.set_nonblocking(false);
+    // a server that never takes the connection (or stops reading) must not block the harness for ever
+    let _ = c.sock.set_write_timeout(Some(Duration::from_secs(15)));
     // write and read concurrently enough: programs are small (< 64 KiB)
-    c.sock.write_all(&all).map_err(|e| e.to_string())?;
+    c.sock.write_all(&all).map_err(|e| format!("the server did not take the program off the socket within 15 s ({})", e))?;
     if !c.read_until(Duration::from_secs(15), |c| c.has_opaque(crate::netpipe::SENTINEL) || c.malformed.is_some()) {
         return Err(format!("program not answered completely within 15 s (got {} responses, eof={})", c.resps.len(), c.eof));
     }
@@ -153,6 +155,41 @@ fn scripted_programs() -> Vec<PipeCase> {
         PItem::Cmd(c)
     };
     let mut progs: Vec<Vec<PItem>> = vec![];
+    // FIRST (the server has stored nothing yet, so whatever is mis-counted here is not hidden by megabytes
+    // of earlier traffic): large items replaced by short ones, short stores rejected on large items (stale cas, add on a present key),
+    // deletes and re-creations, then every resident read back: whatever the policy layer counts, nothing may go
+    {
+        let big = |n: usize, s: u8| crate::sym::patterned(n, s);
+        let mut p = vec![];
+        for i in 0..6usize {
+            p.push(set(format!("res{}", i).as_bytes(), format!("resident{}", i).as_bytes(), 0));
+        }
+        for round in 0..4usize {
+            p.push(set(k(0), &big(3000 - round * 500, round as u8), 0));
+            for j in 0..3u64 {
+                let mut c = Cmd::set(k(0), b"s", 1, 0);
+                c.cas = 0x7700_0000 + j;
+                p.push(PItem::Cmd(c));
+                let mut a = Cmd::set(k(0), b"", 2, 0);
+                a.kind = Kind::Add;
+                p.push(PItem::Cmd(a));
+                let mut r = Cmd::set(k(0), b"r", 2, 0);
+                r.kind = Kind::Replace;
+                r.cas = 0x7800_0000 + j;
+                p.push(PItem::Cmd(r));
+            }
+            p.push(set(k(0), b"tiny", 0));
+            p.push(del(k(0)));
+            p.push(del(k(0)));
+            p.push(set(k(1), &big(100 + round, 9), 0));
+        }
+        p.push(set(k(2), b"last", 0));
+        for i in 0..6usize {
+            p.push(get(format!("res{}", i).as_bytes()));
+        }
+        p.extend(vec![get(k(0)), get(k(1)), get(k(2))]);
+        progs.push(p);
+    }
     // a few megabytes of fresh keys, then all of them read back: no configuration may have evicted anything
     // (the configured memory limits are 64 MB and more)
     {
